@@ -46,6 +46,10 @@ def compile_errors(lab, stderr):
         m = re.match(r"(?:mod|fn run_)m(\d+)", l)
         if m:
             cur = int(m.group(1))
+        elif re.match(r"mod mempty1", l):
+            cur = "empty1"
+        elif re.match(r"mod mempty", l):
+            cur = "empty"
         owner.append(cur)
     out = []
     for m in re.finditer(r"error(?:\[E\d+\])?: ([^\n]*)\n\s*--> src/main.rs:(\d+)", stderr):
@@ -381,6 +385,10 @@ def analyse(info, prims):
         if not b.get("compiled"):
             for ce in b.get("compile_errors", []):
                 k = ce.get("module")
+                if k in ("empty", "empty1"):
+                    res["oracle"].append({"property": "C13", "message": f"the module generated for the definition with {'no variant' if k == 'empty' else 'a single empty variant'} does not compile ({name}): {ce['message']} at `{ce['source']}`",
+                                          "line": -1, "build": name, "requests": ["reset native 0 n"] + (["close simple"] if k == "empty1" else []) + ["build", "gen cs"]})
+                    continue
                 # last request line of that module
                 line = (mods_idx[k + 1] - 1 if k is not None and k + 1 < len(mods_idx) else len(req) - 1) if k is not None and k < len(mods_idx) else 0
                 while line > 0 and req[line].startswith(("reset", "add", "rm", "close", "build")):
